@@ -36,7 +36,7 @@ for d in sorted(glob.glob(f'{V}/benign/C*')):
         verdict = "benign: no check raised an alarm" if not bad else "UNADJUDICATED alarm of " + ", ".join(bad)
         why = ""
     first = next((l.strip() for l in notes.splitlines() if l.strip() and not l.startswith('#')), '')
-    meta = {"property": bid.split('-')[0], "touches": files, "summary": first[:400], "checks_run_quick": checks, "verdict": verdict, "rerun_on_final_harness": ("no alarm" if bid in final and all(rc == 0 and vl == 0 for rc, vl in final[bid].values()) else ("not re-run" if bid not in final else "alarm (see build/benign4.log)"))}
+    meta = {"property": bid.split('-')[0], "touches": files, "summary": first[:400], "checks_run_quick": checks, "verdict": verdict, "rerun_on_final_harness": ("no alarm" if bid in final and all(rc == 0 and vl == 0 for rc, vl in final[bid].values()) else ("not re-run" if bid not in final else "alarm (see notes/benign_final.log)"))}
     if why: meta["adjudication"] = why
     json.dump(meta, open(d + '/meta.json', 'w'), indent=1)
     print(bid, verdict, len(checks))
